@@ -477,7 +477,8 @@ impl<'a> Tr<'a> {
                 if segs.len() >= 2 {
                     let en = &segs[segs.len() - 2];
                     let en = if en == "Self" { self.cur.self_ty.clone().unwrap_or_default() } else { en.clone() };
-                    if en == "Ordering" {
+                    // `konst::__::Greater`: the re-exported variants of `core::cmp::Ordering`
+                    if en == "Ordering" || en == "CmpOrdering" || (en == "__" && matches!(last.as_str(), "Less" | "Equal" | "Greater")) {
                         let c = match last.as_str() {
                             "Less" => "lt",
                             "Equal" => "eq",
